@@ -723,7 +723,18 @@ func (g *c03vGen) buildMem(op c03vOp, full bool) {
 			g.setS(so, uint32(off))
 			f["offset"] = uint32(so)
 		}
-		addr := base + off
+		if rng.Chance(15) { // misaligned: the two low bits of the sum are ignored
+			mis := uint64(rng.Range(1, 3))
+			if _, imm := f["imm"]; imm && off < 0xffff0 && rng.Chance(50) {
+				off += mis
+				f["offset"] = uint32(off)
+			} else {
+				base += mis
+				g.setS(sb, uint32(base))
+				g.setS(sb+1, uint32(base>>32))
+			}
+		}
+		addr := (base + off) &^ 3
 		g.setMem(addr-4, rng.Bytes(4))
 		g.setMem(addr, rng.Bytes(4*n))
 		g.setMem(addr+uint64(4*n), rng.Bytes(4))
